@@ -8,12 +8,12 @@ Local Open Scope Z_scope.
 Section Generic.
   Variable X : Type.
   Variable e : X -> X -> bool.
-  Variable c : X -> X -> Z.
+  Variable c : nat -> X -> X -> Z.
 
   Lemma vadd1_unordered : forall l x,
     vadd1 X e c (mkv Unordered l) x = Ok (mkv Unordered (if existsb (fun m => e m x) l then l else l ++ [x])).
   Proof.
-    intros l x. unfold vadd1. simpl vk. simpl vm. rewrite add_plan_linear by congruence. simpl.
+    intros l x. unfold vadd1. simpl vk. simpl vm. rewrite add_plan_linear by exact I. simpl.
     unfold Spec.memb. destruct (existsb (fun m => e m x) l); [reflexivity|].
     now rewrite ins_at_end.
   Qed.
@@ -22,12 +22,12 @@ End Generic.
 Section Power.
   Variable T : Type.
   Variable eqb : T -> T -> bool.
-  Variable cmp : T -> T -> Z.
+  Variable cmp : nat -> T -> T -> Z.
   Variable draw : nat -> nat.
   Hypothesis eqb_spec : forall x y, eqb x y = true <-> x = y.
-  Hypothesis cmp_eq : forall x y, cmp x y = 0 <-> x = y.
-  Hypothesis cmp_anti : forall x y, cmp x y < 0 <-> 0 < cmp y x.
-  Hypothesis cmp_trans : forall x y z, cmp x y < 0 -> cmp y z < 0 -> cmp x z < 0.
+  Hypothesis cmp_eq : forall c x y, cmp c x y = 0 <-> x = y.
+  Hypothesis cmp_anti : forall c x y, cmp c x y < 0 <-> 0 < cmp c y x.
+  Hypothesis cmp_trans : forall c x y z, cmp c x y < 0 -> cmp c y z < 0 -> cmp c x z < 0.
 
   Notation set0 := (vset T).
   Notation inv := (inv T cmp).
